@@ -99,6 +99,21 @@ def judge_seq(ctx, outs, what, atomic=True, exact=True, filt=None):
             iacc, irej = ctx.validate_batch(ip, isum, validator=lambda pth, to: tlc.validate_trace("TraceStore", cfg, pth, timeout=to))
             stats["impl_accepted"] = stats.get("impl_accepted", 0) + iacc
             stats["impl_events"] = stats.get("impl_events", 0) + summ.get("impl_events", 0)
+            # self-test of the binding (once per check): a corrupted scalar must be rejected
+            if not ctx.cov.get("binding_selftest") and not irej:
+                lines = open(ip).read().splitlines()
+                idx = [k for k, ln in enumerate(lines) if '"ev":"rotated"' in ln or '"ev":"removed"' in ln]
+                if idx:
+                    e = json.loads(lines[idx[0]])
+                    e["n"] += 1
+                    lines[idx[0]] = json.dumps(e)
+                    cp = os.path.join(out, "impl-corrupt.ndjson")
+                    open(cp, "w").write("\n".join(lines) + "\n")
+                    rr = tlc.validate_trace("TraceStore", cfg, cp)
+                    if rr["accepted"]:
+                        raise Machinery("binding self-test failed: TraceStore accepted a trace with a corrupted immutable count")
+                    ctx.cov["binding_selftest"] = "corrupted immutable-list length in event %d rejected at event %d" % (
+                        idx[0] + 1, rr["highwater"])
             for rj in irej:
                 sid = scripts[summ["impl_scripts"][rj["index"]]]["id"]
                 ctx.drift.append("Store.tla does not explain the hook stream of script %s at event %d: %s "
